@@ -24,6 +24,7 @@ from vf import gen as G, model as M, oracle as O, snapshot as S
 from vf.checks.common import Case, call, exc_text
 
 ID = "C10"
+TECHNIQUE = "runtime monitoring: state hooks on private caches, live-vs-rebuilt and twin experiments along histories, subprocess digests under PYTHONHASHSEED"
 LEVEL = "exploration"
 RULE = ("random histories (<= 10 steps) over {area / length / box / membership / == / containment queries, move, "
         "positive scale, rotate, invert, operators with a third shape, copy} on live shapes of all kinds; after each "
